@@ -102,15 +102,15 @@ type RunCfg struct {
 }
 
 type RunResult struct {
-	Outcomes  [][]Outcome
-	Sig       uint64
-	Stats     simrt.Stats
-	Switches  []simrt.Switch
-	Deadlock  bool
-	Capped    bool
-	StuckSite string
-	Race      string
-	Events    []simrt.Event
+	Outcomes   [][]Outcome
+	Sig        uint64
+	Stats      simrt.Stats
+	Switches   []simrt.Switch
+	Deadlock   bool
+	Capped     bool
+	StuckSite  string
+	Race       string
+	Events     []simrt.Event
 	TaskYields []int
 	SiteBits   [64]uint64
 }
@@ -259,7 +259,7 @@ func runSim(w *Workload, prep [][]*Prepared, warm []*Prepared, cfg RunCfg, keepE
 // use of an unreflectable type panics where the first returned an error), a
 // success is not.
 type Admissible struct {
-	alone      [][]Outcome
+	alone [][]Outcome
 	// textStable: the call fails alone with an error whose text is the same under the canonical
 	// and under the reversed iteration order and in both alone passes: the text is then part of
 	// "the same result" and is compared exactly
@@ -514,11 +514,11 @@ func confirmNotSequential(w *Workload, prep [][]*Prepared, warm []*Prepared, a *
 // ---------------------------------------------------------------- judging a run
 
 type Violation struct {
-	Class  string `json:"class"` // data_race | panic | deadlock | no_progress | result_differs
-	Task   int    `json:"task"`
-	Op     int    `json:"op"`
-	OpSpec string `json:"op_spec,omitempty"`
-	Detail string `json:"detail"`
+	Class  string   `json:"class"` // data_race | panic | deadlock | no_progress | result_differs
+	Task   int      `json:"task"`
+	Op     int      `json:"op"`
+	OpSpec string   `json:"op_spec,omitempty"`
+	Detail string   `json:"detail"`
 	Funcs  []string `json:"funcs,omitempty"`
 }
 
